@@ -38,6 +38,7 @@ func checkC11(c *Ctx, r *Report) {
 	r.rule("C11.R3", "no explicit abort (panic, Fatal, os.Exit) reachable from a route handler", 1)
 	r.rule("C11.R4", "no wedge: Lock is followed by defer Unlock before anything that may panic, or the critical section cannot panic", 4)
 	r.rule("C11.R6", "every assignment to a map entry on the request path is into a map that some function of the module makes", 3)
+	r.rule("C11.R7", "the only 5xx answer of the handlers lies behind a failed read of the request body, and what is read is the request's own body: no code of the module replaces http.Request.Body (a size-limiting reader makes the read fail - and the handler answer 500 - for a long but valid request)", 1)
 	r.rule("C11.R5", "every problem status built in the API/processor is a 4xx constant", 8)
 
 	entries := httpEntries(c)
@@ -139,6 +140,29 @@ func checkC11(c *Ctx, r *Report) {
 
 	// ---- R6
 	checkMapWrites(c, r, reached, pred, "C11.R6")
+
+	// ---- R7
+	nBody := 0
+	for _, f := range c.ModFuncs {
+		eachInstr(f, func(_ *ssa.BasicBlock, _ int, ins ssa.Instruction) {
+			st, ok := ins.(*ssa.Store)
+			if !ok {
+				return
+			}
+			fa, ok := st.Addr.(*ssa.FieldAddr)
+			if !ok || fieldName(fa) != "Body" || !typeIs(fa.X.Type(), "net/http", "Request") {
+				return
+			}
+			if !reached[rootOf(f)] && !reached[f] {
+				return
+			}
+			nBody++
+			r.viol("C11.R7", fnKey(rootOf(f))+"|replaces the request body", posOf(c, ins), "the request body is replaced by "+describe(st.Val)+" before it is read: whatever makes that reader fail (a length limit, a deadline) is answered with the 500 of the body-read error branch although the request is valid")
+		})
+	}
+	if nBody == 0 {
+		r.proven("C11.R7", "request body|no writer", "", "no request-reachable function assigns http.Request.Body: the handlers read the body the client sent")
+	}
 }
 
 // checkMapWrites: an assignment to an entry of a nil map panics (reading one
